@@ -339,6 +339,21 @@ def run_shard(spec, ctx):
                 for c2 in printable:
                     check_text(ctx, q + "\\x" + c1 + c2 + q, deep=False)
                     ctx.count("escape_texts")
+        # text of the program that ends up inside the message of a syntax error: characters that mean something to the
+        # host's own string formatting (str.format, %, f-strings, templates) are text like any other there
+        payloads = ["{}", "{0}", "{1}", "{name}", "{0!r}", "{:>10}", "{0.__class__}", "{a[0]}", "{", "}", "{{", "}}", "{{}}", "}{", "{2}[", "%s", "%d", "%(x)s", "%", "%%",
+                    "%5", "$x", "${x}", "\\{", "\\N{DASH}", "{\\n}", "a{2}", "a{1,3}", "{,}", "(?P<n>", "\\g<0>", "\\1", "%c", "{!}", "{:}", "{0:{1}}"]
+        frames = ["//%s[//", "//(%s//", "//%s)//", "//*%s//", "1 '%s'", "'%s' 1", "def '%s' = 1", "fn('%s') 1", "for '%s' in x do 1 end", "x->'%s'", "require '%s' import ['%s']",
+                  "f(1, '%s' = 2)", "<<<'%s' => >>>", "[1, '%s'", "'%s'[", "s('%s'", "1 is '%s'", "def f(a, '%s') a", "'\\x%s'", "0x%s", "1%s", "x %s y", "%s", "# %s\n)", "'a' %s",
+                  "do 1 catch '%s'", "<*'%s' = 1*>", "x !> '%s'()", "if '%s' then", "1 + //%s//", "//%s// //%s[//"]
+        for fr in frames:
+            for pl in payloads:
+                try:
+                    text = fr % ((pl,) * fr.count("%s"))
+                except (TypeError, ValueError):
+                    continue
+                check_text(ctx, text, deep=False)
+                ctx.count("message_payload_texts")
         # very long single tokens
         for n in (100, 1000, 4299, 4300, 4301, 5000, 20000):
             for text in ("9" * n, "1" + "0" * n, "0x" + "f" * n, "0b" + "1" * n, "1_" * n + "1", "0." + "3" * n, "9" * n + ".5",
